@@ -20,11 +20,12 @@ def sh(cmd, cwd=None, env=None, timeout=7200):
 
 def main():
     d = os.path.abspath(sys.argv[1])
-    checks = None; skip_suite = False
+    checks = None; skip_suite = False; checks_only = False
     a = sys.argv[2:]
     while a:
         if a[0] == "--checks": checks = a[1].split(","); a = a[2:]
         elif a[0] == "--skip-suite": skip_suite = True; a = a[1:]
+        elif a[0] == "--checks-only": checks_only = True; a = a[1:]
         else: raise SystemExit("bad arg " + a[0])
     meta = json.load(open(os.path.join(d, "meta.json")))
     prop = meta["property"]
@@ -40,6 +41,26 @@ def main():
         print(f"[{name}] rc={rc} {'OK' if ok else 'UNEXPECTED'}")
         return ok
     sh("git checkout -q -- . && git clean -fdq -e target", cwd=WT)
+    if checks_only:
+        # keep the recorded confirmation, only (re)run the listed checks against the change
+        res = json.load(open(os.path.join(d, "confirmation.json")))
+        rc, out = sh(["git", "apply", os.path.join(d, "patch.diff")], cwd=WT)
+        assert rc == 0, out
+        for c in checks:
+            t0 = time.time()
+            rc, out = sh(["./check", c], cwd=VERIF, env={"VERIF_REPO": WT, "VERIF_TARGET_DIR": "/tmp/verif-alt-target-" + os.path.basename(WT)})
+            lines = [l for l in out.split("\n") if l.startswith("VIOLATION") or l.startswith("# C")]
+            res["checks"][c] = {"rc": rc, "detected": rc == 1 and any(l.startswith("VIOLATION") for l in lines),
+                                "lines": lines, "wall_s": round(time.time() - t0, 1), "rerun": True}
+            print(f"[check {c}] rc={rc} {lines}")
+            rp = os.path.join(VERIF, "replays", c)
+            if rc == 1 and os.path.isdir(rp):
+                dst = os.path.join(d, "replay_" + c)
+                shutil.rmtree(dst, ignore_errors=True); shutil.copytree(rp, dst)
+        sh("git checkout -q -- . && git clean -fdq -e target", cwd=WT)
+        json.dump(res, open(os.path.join(d, "confirmation.json"), "w"), indent=1)
+        print("confirmed:", res["confirmed"], " detected:", {c: r["detected"] for c, r in res["checks"].items()})
+        return
     demo_dst = os.path.join(WT, demo_rel)
     os.makedirs(os.path.dirname(demo_dst), exist_ok=True)
     shutil.copy(os.path.join(d, "demo.rs"), demo_dst)
